@@ -273,6 +273,19 @@ def run(ctx):
     ctx.check(order_ok, "R18.4", "write:new-type-sequence", f"new-type handling is {order}{' (missing: ' + str(missing) + ')' if missing else ''}", add,
               " -> ".join(["self.descriptors_seen.add"] + want), key="R18.4:write:new-type-sequence")
     guard = add
+    # update_descriptor_columns compares NAMES: it may stop early only when no column is missing - never on counts or other shortcuts
+    udc = ctx.anchor_func("flow.record.adapter.sqlite.update_descriptor_columns")
+    ucfg8 = CFG(udc)
+    ual8 = single_assign_aliases(udc)
+    floops = [n for n in ast.walk(udc) if isinstance(n, (ast.For, ast.comprehension)) and "get_all_fields" in norm(expand_aliases(n.iter, ual8))]
+    ctx.floor("R18.4", "loops over the descriptor's fields in update_descriptor_columns", len(floops), 1)
+    first_loop = min((ucfg8.node_of(n if isinstance(n, ast.For) else n._parent) for n in floops), key=lambda nd: nd.id, default=None)
+    if first_loop is not None:
+        early = [nd for nd in ucfg8.stmt_nodes() if isinstance(nd.ast, ast.Return) and not ucfg8.dominates(first_loop.id, nd.id) and nd.id in ucfg8.reachable(ucfg8.entry)]
+        ctx.check(not early, "R18.4", "update_descriptor_columns:compares-names", f"update_descriptor_columns can return before it has looked at the field names "
+                  f"(`{norm(early[0].ast) if early else ''}` under {[t for t, p0 in enclosing_conditions(early[0].ast, udc)] if early else ''}): a descriptor whose fields were renamed or replaced "
+                  "without growing gets no new columns and its records fail to insert", early[0].ast if early else udc, "every field name is compared with the existing columns",
+                  key="R18.4:update_descriptor_columns:early-return")
     icall = next((c for c in calls_in(wr) if norm(c.func) == "db_insert_record"), None)
     ctx.check(icall is not None and enclosing_conditions(icall, wr) == [] and (not order_ok or wcfg.node_of(icall).id in wcfg.reachable(wcfg.node_of(seq[-1]).id)), "R18.4", "write:insert-after-ddl",
               "the insert is not unconditionally preceded by the new-type handling", wr, "insert after the (conditional) DDL, unconditional")
